@@ -265,12 +265,15 @@ int main(int argc, char **argv) {
                             double nat = 0;
                             for (size_t i = b0; i < b1; ++i) if (!gr_slot_attached_to(oa[i])) nat += gr_slot_advance_X(oa[i], f, nullptr);
                             const double W = std::floor(nat * wf) + 0.5;
+                            g_dec[0].clear(); g_dec[1].clear();
                             float ra = LIB(gr_seg_justify(A, oa[b0], nullptr, W, gr_justFlags(flags), nullptr, nullptr));
                             float rb = LIB(gr_seg_justify(B, ob[b0], font, W * double(s), gr_justFlags(flags), nullptr, nullptr));
+                            const double jgap = flipped_gap();         // the re-positioning inside justify() takes the same decisions (KF-C15-2)
                             const double tolj = tol + double(s) * 2.0 * double(b1 - b0 + 2);
                             auto cj = [&](const char *what, size_t idx, double av, double bv) {
                                 double err = std::fabs(bv - double(s) * av);
                                 worstj = std::max(worstj, err / tolj);
+                                if (err > tolj && jgap <= tol) { V(fmt("scale:justified:%s:finalise-tie", what).c_str(), "line %d slot %zu: design %.9g x %.9g = %.9g but pixel value %.9g; a finalise() comparison came out differently in the scaled run on operands only %.3g apart", line, idx, av, double(s), double(s) * av, bv, jgap); return; }
                                 if (err > tolj) V(fmt("scale:justified:%s", what).c_str(), "line %d (slots %zu..%zu, width %.1f design units, flags %d), slot %zu: design %.9g x %.9g = %.9g but pixel value %.9g", line, b0, b1, W, flags, idx, av, double(s), double(s) * av, bv);
                             };
                             cj("width", b0, ra, rb);
